@@ -753,9 +753,13 @@ class CallsMixin:
         if isinstance(v, (int, SymInt)) and not isinstance(v, bool):
             if not ctx.branch(z3_of_int(v) >= 0, "bytes(n>=0)"):
                 raise mk_exc(ValueError, "negative count", where=fr.where())
-            p = ops.fresh_payload(ctx, "zeros")
-            ctx.assume(p.n == z3_of_int(v))
-            return p
+            # bytes(n): n zero bytes -- a byte string of that length that starts with (and so
+            # contains) NUL when it is not empty
+            zs = SymStr(ctx.fresh("zeros", Str), "bytes")
+            nz = z3_of_int(v)
+            ctx.assume(z3.Length(zs.e) == nz)
+            ctx.assume(z3.Implies(nz > 0, z3.PrefixOf(z3.StringVal("\x00"), zs.e)))
+            return zs
         if v is None:
             raise mk_exc(TypeError, "cannot convert 'NoneType' object to bytes", where=fr.where())
         if isinstance(v, SymAny):
